@@ -35,6 +35,14 @@ public:
     bool empty() const { return n == 0; }
     void push_back(const T& x) { __CPROVER_assert(n < VERIF_VEC_CAP, "stub: vector capacity"); elems[n] = x; n++; }
     void clear() { n = 0; }
+    T* begin() { return &elems[0]; }
+    T* end() { return &elems[0] + n; }
+    /* insert(end(), b, e): append a range */
+    void insert(T* pos, T* b, T* e)
+    {
+        __CPROVER_assert(pos == end(), "stub: insert at end() only");
+        for (int i = 0; i < VERIF_VEC_CAP; i++) { if (b + i < e) push_back(b[i]); }
+    }
     T& operator[](size_t i) { __CPROVER_assert(i < n, "stub: vector index < size()"); return elems[i]; }
     const T& operator[](size_t i) const { __CPROVER_assert(i < n, "stub: vector index < size()"); return elems[i]; }
 };
@@ -58,6 +66,11 @@ struct verif_name_map
         return (verif_map_it)0;
     }
     void clear() { for (int i = 0; i < NNAMES; i++) has[i] = false; }
+    /* iteration (rule L7m: `for ([const] auto& [k, v] : map)` -> a loop over these accessors) */
+    int verif_cap() const { return NNAMES; }
+    bool verif_has(int i) const { return has[i]; }
+    string verif_key(int i) const { return string(i); }
+    int32_t verif_val(int i) const { return ent[i].second; }
 };
 /* std::optional<uint32_t> */
 struct verif_opt_u32
@@ -106,6 +119,10 @@ public:
     uint32_t get_size() const;
     symbol_t add_symbol(const string& name, type_t, position_t, void* user = nullptr);
     void add(symbol_t);
+    void add(frame_t);
+    void move_to(frame_t);
+    symbol_t* begin();
+    symbol_t* end();
     std::verif_opt_u32 get_index_of(const string& name) const;
     bool resolve(const string& name, symbol_t& symbol) const;
     frame_t get_parent() const;
@@ -160,6 +177,23 @@ void w07_parent_answer(int found, int name, int answer_type)
 void w07_add_symbol(int name, int type) { last_added = F.add_symbol(string(name), type_t(type), position_t()); }
 void w07_add_existing(int i) { F.add(pre[i]); }
 int w07_size(void) { return (int)F.get_size(); }
+/* a second frame G with m symbols (names gn[i]); F.add(G) / G.move_to(F) */
+static frame_t G;
+static symbol_t gsym[3];
+void w07_setup_G(int m, int g0, int g1, int g2)
+{
+    int gn[3] = {g0, g1, g2};
+    G = frame_t::create();
+    for (int i = 0; i < 3; i++) { if (i < m) gsym[i] = G.add_symbol(string(gn[i]), type_t(100 + i), position_t()); }
+}
+void w07_add_frame(void) { F.add(G); }
+void w07_move_to(void) { G.move_to(F); }
+int w07_G_size(void) { return (int)G.get_size(); }
+int w07_G_index_of(int name, int* has) { std::verif_opt_u32 r = G.get_index_of(string(name)); *has = r.has; return (int)r.v; }
+int w07_F_sym_is_G(int i, int j) { return F.data->symbols[i] == gsym[j]; }
+int w07_G_sym_is(int i, int j) { return G.data->symbols[i] == gsym[j]; }
+int w07_gsym_frame_is_F(int j) { return gsym[j].data->frame == F.data; }
+int w07_gsym_frame_is_G(int j) { return gsym[j].data->frame == G.data; }
 int w07_index_of(int name, int* has) { std::verif_opt_u32 r = F.get_index_of(string(name)); *has = r.has; return (int)r.v; }
 int w07_resolve(int name) { out_sym = symbol_t(); return F.resolve(string(name), out_sym); }
 /* identity of a symbol: 0..2 = pre[i], 10 = last_added, 20 = the parent's answer, -1 = null, 99 = other */
